@@ -294,6 +294,9 @@ theorem repo_skeleton_entry_ok : entryOkB Gen.skeletons Gen.skRel Gen.skEntryR =
 theorem repo_rows_indexed : rowsIndexedB (allRows Gen.skeletons Gen.skRel Gen.skEntryR) Gen.skRowsT = true :=
   checkAll_rows repo_skeleton_check
 
+/-- the skeletons are numbered consecutively and no call is dangling (`targets_resolve`: every call target has a body) -/
+theorem repo_calls_resolve : indexedB Gen.skeletons = true ∧ targetsOkB Gen.skeletons = true := by decide +kernel
+
 /-- only function literals and functions with an unexported name start from a non-empty entry lockset: whatever can be
     entered from another package is analysed from ∅ -/
 theorem repo_entry_roots_ok : entryRootsOkB Gen.skeletonNames Gen.skEntryR = true := by decide +kernel
